@@ -67,6 +67,15 @@ func runCase(c *wk.Ctx, i int) {
 			return
 		}
 		berr = ru.Close()
+		if berr == nil && r.Intn(3) == 0 {
+			// the DB was opened and closed once more without writing: its only journal is
+			// empty and younger than every table
+			var db2 *leveldb.DB
+			if db2, berr = leveldb.Open(ru.Stor, ru.OS.Clone()); berr == nil {
+				berr = db2.Close()
+			}
+			c.Count("states_reopened_once_without_writing", 1)
+		}
 	}) {
 		return
 	}
@@ -332,6 +341,28 @@ func runCase(c *wk.Ctx, i int) {
 		}
 		if bad {
 			return
+		}
+		if r.Intn(2) == 0 {
+			// close right away: what was written after Recover lives in the journal only
+			if err := db.Close(); err != nil {
+				c.Violation(i, "unusable-after-recover", "Close: "+err.Error(), wit)
+				bad = true
+				return
+			}
+			db2, err := leveldb.Open(st, ru.OS.Clone())
+			if err != nil {
+				c.Violation(i, "unusable-after-recover", "Open after Recover+Close: "+err.Error(), wit)
+				bad = true
+				db = nil
+				return
+			}
+			db = db2
+			if mm := dbx.FullScan(db.NewIterator(nil, nil), m2.Range(nil, nil)); mm != nil {
+				c.Violation(i, "writes-after-recover-lost", "writes made after Recover are not there after Close + Open: "+mm.Error(), wit)
+				bad = true
+				return
+			}
+			c.Count("reopened_right_after_recover_and_writes", 1)
 		}
 		if err := db.CompactRange(util.Range{}); err != nil {
 			c.Violation(i, "unusable-after-recover", "CompactRange: "+err.Error(), wit)
